@@ -80,6 +80,11 @@ def main():
     finally:
         subprocess.run(["git", "-C", "/repo", "worktree", "remove", "--force", wt], capture_output=True)
         shutil.rmtree(wt, ignore_errors=True)
+    # benign variants: CORRECT alternative implementations; every listed check must stay silent on them (false-alarm guard)
+    index["benign_morton_magic_static_table"] = {"patch": "mutants/benign_morton_magic_static_table.patch", "properties": [], "silent": ["C16", "C14", "C01", "C05"],
+                                                 "note": "portable Morton index through a function-local static table with thread-safe (magic static) initialisation - correct"}
+    index["benign_hilbert_mutex_cache"] = {"patch": "mutants/benign_hilbert_mutex_cache.patch", "properties": [], "silent": ["C16", "C14", "C01"],
+                                           "note": "process-wide one-entry index cache in the Hilbert view, protected by a std::mutex - correct"}
     # seeded changes delivered by independent sub-agents (seeded/<id>/meta.json carries "check_with")
     import glob
     for mp in sorted(glob.glob(os.path.join(V, "seeded/*/meta.json"))):
